@@ -569,3 +569,23 @@ Definition has_anonymous (l : list def) : bool :=
 Definition doc_valid_names (d : doc) : bool :=
   nodupb (op_names (defs d)) && nodupb (frag_names (defs d))
   && (if has_anonymous (defs d) then single_op d else true).
+
+(** * One loader instance over time (crates/graphql-loader/src/main.rs)
+
+    [CONFIG] is a thread-local, [Config::default()] until the first [load_config] (whose [generate] part is
+    [parse_config None]); [load_config_impl] replaces it; [emit_js] hands the CURRENT one to [print_js], which
+    derives the printer options from it on every call.  So a module emitted at some point of a history depends
+    only on the configuration text loaded last before it. *)
+Inductive lop :=
+| LLoad (c : cfg_text)                    (* load_config(text) *)
+| LEmit (d : doc) (B : list defbody).     (* initiate_task … emit_js for a file whose resolved document is d (CLI view) *)
+
+(** the emissions of a history: (configuration current at that step, document, bodies, emitted op list) *)
+Fixpoint run_loader (cur : cfg_text) (h : list lop) : list (cfg_text * doc * list defbody * list wop) :=
+  match h with
+  | [] => []
+  | LLoad c :: r => run_loader c r
+  | LEmit d B :: r => (cur, d, B, js_of_config cur (loader_view d) B) :: run_loader cur r
+  end.
+(* a fresh instance *)
+Definition loader_history (h : list lop) := run_loader None h.
